@@ -3,6 +3,7 @@ import JobShopModel.Rules
 import JobShopModel.Equality
 import JobShopModel.Views
 import JobShopModel.Features
+import JobShopModel.FeatureSpecs
 import JobShopModel.Generator
 import JobShopModel.Viz
 import JobShopModel.Env
@@ -493,6 +494,25 @@ def fmtFObs (I : Instance) (id : Nat) (o : FObs) : String :=
   | .residual => s!"{id}:residual({fmtNats o.parts}) {fmtGraph o.graph}"
   | k => s!"{id}:{fkindName k} {cols}"
 
+/-- the from-scratch specifications of every feature (`JobShopModel/FeatureSpecs.lean`) in the current dispatcher
+state: what the C11 theorems equate the observers with; compared with the Python oracle's recomputation -/
+def fspecLine (c : Cfg) (s : State) : String :=
+  let I := c.I
+  let un := unscheduledPure I s
+  let now := currentTimePure c s
+  let kv (l : List (Nat × Int)) : String := " ".intercalate (l.map fun kv => s!"{kv.1}:{kv.2}")
+  let M := numMachines I
+  let estm := (List.range M).map fun m => (((un.filter (onMachine I m)).map (estSpec I s)).min?).getD 0 - now
+  let estj := (List.range I.length).filterMap fun j =>
+    let n := s.jobIdx.getD j 0
+    if n < (I.getD j []).length then some (j, estSpec I s (j, n) - now) else none
+  s!"now {now} | est {kv (un.map fun r => (opId I r, estSpec I s r - now))} | estm {fmtInts estm} | estj {kv estj}" ++
+  s!" | pos {kv (un.map fun r => (opId I r, posSpec s r))} | durj {fmtInts (durJobsSpec I s)} | durm {fmtInts (durMachSpec I s)}" ++
+  s!" | remj {fmtInts (remJobsSpec I s)} | remm {fmtInts (remMachSpec I s)} | sch {fmtInts (schedOpsSpec I s)}" ++
+  s!" | ogm {fmtInts (ongoingMachSpec c s)} | ogj {fmtInts (ongoingJobsSpec c s)} | cop {fmtInts (complOpsSpec c s)}" ++
+  s!" | cj {fmtInts (complJobsSpec I s)} | cm {fmtInts (complMachSpec I s)}" ++
+  " | deq " ++ " / ".intercalate ((dequesSpec I s).map fun d => fmtRefs I d)
+
 def fworldSnapshot (w : FWorld) : String :=
   let obs := (List.range w.heap.length).map fun id => match w.heap[id]? with
     | some o => fmtFObs w.cfg.I id o
@@ -590,6 +610,7 @@ def stepAll (d : DW) (line : String) : DW × String :=
         | (fw', none) => ({ d with fw := fw' }, "raise"))
      | none => (d, "bad-op"))
   | ["fsnap"] => (d, fworldSnapshot d.fw)
+  | ["fspec"] => (d, fspecLine d.fw.cfg d.fw.s)
   | "gen" :: rest =>
     match ints? rest with
     | some (j1 :: j2 :: m1 :: m2 :: d1 :: d2 :: al :: rc :: k1 :: k2 :: n :: draws) =>
